@@ -76,6 +76,25 @@ func (s *schemaDoc) validate(n map[string]any, v any, path string, errs *[]strin
 			return
 		}
 	}
+	for _, kw := range []string{"oneOf", "anyOf"} {
+		if alts, ok := n[kw].([]any); ok {
+			matches := 0
+			var first []string
+			for _, a := range alts {
+				am, _ := a.(map[string]any)
+				var sub []string
+				s.validate(am, v, path, &sub)
+				if len(sub) == 0 {
+					matches++
+				} else if first == nil {
+					first = sub
+				}
+			}
+			if matches == 0 || (kw == "oneOf" && matches != 1) {
+				*errs = append(*errs, fmt.Sprintf("%s: %d alternatives of %s match (%s)", path, matches, kw, strings.Join(first, ", ")))
+			}
+		}
+	}
 	if pat, ok := n["pattern"].(string); ok {
 		if sv, isStr := v.(string); isStr {
 			if re, err := regexp.Compile(pat); err == nil && !re.MatchString(sv) {
@@ -396,6 +415,56 @@ func famSchema(tr *Trace, scratch string, seed int64, tier string, repo, nfpmBin
 		d["contents"] = []any{map[string]any{"src": root0 + "/src/bin", "dst": "/usr/bin/probe", "file_info": map[string]any{"mode": rawYAML(mode)}}}
 		d["umask"] = rawYAML("0o27")
 		probe("contents[].file_info.mode", mode, d, allFormats)
+	}
+
+	// (3b) the documents the project itself publishes: the file `nfpm init` writes and the reference configuration of the
+	// documentation.  Every key they use is a documented key: the strict parser must accept them and the schema must too.
+	{
+		type docSrc struct{ name, text string }
+		var docs []docSrc
+		initPath := filepath.Join(scratch, "init-nfpm.yaml")
+		if out, err := exec.Command(nfpmBin, "init", "-f", initPath).CombinedOutput(); err == nil {
+			b, _ := os.ReadFile(initPath)
+			docs = append(docs, docSrc{"nfpm init", string(b)})
+		} else {
+			docs = append(docs, docSrc{"nfpm init", "!!! " + string(out)})
+		}
+		if b, err := os.ReadFile(repo + "/www/docs/configuration.md"); err == nil {
+			parts := strings.Split(string(b), "```")
+			for i := 1; i < len(parts); i += 2 {
+				if strings.HasPrefix(parts[i], "yaml\n") && strings.Contains(parts[i], "\nname:") {
+					docs = append(docs, docSrc{fmt.Sprintf("configuration.md block %d", (i+1)/2), strings.TrimPrefix(parts[i], "yaml\n")})
+				}
+			}
+		}
+		for _, d := range docs {
+			var perr error
+			func() {
+				defer func() {
+					if r := recover(); r != nil {
+						perr = fmt.Errorf("PANIC in the parser: %v", r)
+					}
+				}()
+				_, perr = nfpm.ParseWithEnvMapping(strings.NewReader(d.text), func(k string) string { return "envvalue" })
+			}()
+			pe := ""
+			if perr != nil {
+				pe = safeStr(perr.Error())
+				if len(pe) > 300 {
+					pe = pe[:300]
+				}
+			}
+			var errs []string
+			doc := yamlToGeneric(d.text)
+			if doc != nil {
+				sd.validate(root, doc, "$", &errs)
+			}
+			es := safeStr(strings.Join(errs, "; "))
+			if len(es) > 400 {
+				es = es[:400]
+			}
+			emit(M{"ev": "docprobe", "source": d.name, "is_yaml": doc != nil, "parser_accepts": perr == nil, "parser_err": pe, "schema_valid": doc != nil && len(errs) == 0, "schema_err": es})
+		}
 	}
 
 	// (4) generated valid configurations, as documents
